@@ -210,7 +210,8 @@ CHECKS = {
              "field (no omission, enums by name, Undefined as null, runtime class decides); (3) the argument machine: "
              "ArgR (the rule: deserialized as deserialize would, omitted -> Python default, explicit null -> None for "
              "Optional) against ArgM (transcription of resolver_resolve with graphql-core's kwargs). TLC checks ArgLaw, "
-             "ArgSound, InterfacesLaw, NullabilityLaw, IdRoundTrip; six deviations must break their law. ID types (ID and a "
+             "ArgSound, InterfacesLaw, NullabilityLaw, IdRoundTrip, ResLaw (a raising resolver under error_handler unset / None / custom, "
+             "sync and async resolvers and handlers); seven deviations must break their law. ID types (ID and a "
              "NewType listed in id_types) and id_encoding (IdEnc: encode after serialization, DecodeIds before "
              "deserialization, at every ID position of the supplied datum) are part of the model. Every emitted case is "
              "replayed on a generated module under two aliaser / enum_aliaser settings and a third with id_encoding: "
@@ -218,7 +219,7 @@ CHECKS = {
              "execution results, the value each resolver receives for every (parameter declaration, omitted | null | "
              "datum) through two channels (query literal, variable).",
         design_ref="7 C19", technique="TLA+ model of type mapping + argument machine, TLC exhaustive over the pools, replay with graphql-core",
-        note="One data model (20 classes); subscriptions, relay, asynchronous resolvers are not modelled. Known finding F-gql-enum-default."),
+        note="One data model (20 classes); subscriptions, relay are not modelled. Known finding F-gql-enum-default."),
     "C20": dict(
         category="model_checking",
         text="spec/RecCheck.tla models is_recursive / RecursiveChecker.visit with one action per access to the shared "
